@@ -38,6 +38,50 @@ theorem C09_safety (table : List (String × V)) (mn : List String) (addl : List 
       · intro x hx
         exact (extras_spec addl x.1 x.2.2).mp (h2 x hx)
 
+/-- **C09 (safety, with the guards).** The same for `filter_table` as the code runs it — column check,
+    subset / rank-gather / post-check, then the `additional` loop parameter by parameter: if it
+    returns, row `i` is named `model_name[i]`, shows a table row of that name, and carries, for every
+    additional parameter in the order given, the dictionary entry of that (stripped) name. -/
+theorem C09_safety_full (cols : List String) (table : List (String × V)) (mn : List String)
+    (addl : List (String × List (String × K))) (r : List (String × V × List K))
+    (h : filterTableFull cols table mn addl = .ok r) :
+    r.map (·.1) = mn ∧
+    (∀ x ∈ r, (x.1, x.2.1) ∈ table) ∧
+    (∀ x ∈ r, addl.map (fun d => d.2.lookup (strip x.1)) = x.2.2.map some) := by
+  unfold filterTableFull at h
+  split at h
+  · simp at h
+  · split at h
+    · simp at h
+    · rename_i sorted hs
+      obtain ⟨hg, hmn⟩ := filterTable_ok table mn sorted hs
+      obtain ⟨h1, h2⟩ := attachCols_spec addl cols _ r [] h (by simp)
+      have h1' : r.map (fun x => (x.1, x.2.1)) = sorted := by
+        rw [h1]; simp [List.map_map, Function.comp_def]
+      refine ⟨?_, ?_, ?_⟩
+      · rw [hmn, ← h1']; simp [List.map_map, Function.comp_def]
+      · intro x hx
+        have : (x.1, x.2.1) ∈ sorted := by
+          rw [← h1']; exact List.mem_map.mpr ⟨x, hx, rfl⟩
+        exact (List.mem_filter.mp (gather?_mem _ _ _ hg _ this)).1
+      · intro x hx
+        have := h2 x hx
+        simpa [List.map_map, Function.comp_def] using this
+
+/-- **C09 (refusals).** The two guards of `filter_table`: a table without a `MODEL_NAME` column is
+    refused whatever else is given; and if the core succeeds, an additional parameter whose name is
+    already a column of the table is refused. -/
+theorem C09_refusals (cols : List String) (table : List (String × V)) (mn : List String)
+    (addl : List (String × List (String × K))) :
+    ("MODEL_NAME" ∉ cols → filterTableFull cols table mn addl = .error .noModelName) ∧
+    (∀ key d rest sorted, "MODEL_NAME" ∈ cols → filterTable table mn = .ok sorted →
+      addl = (key, d) :: rest → key ∈ cols →
+      filterTableFull cols table mn addl = .error .dupColumn) := by
+  refine ⟨fun h => by simp [filterTableFull, h], ?_⟩
+  intro key d rest sorted hc hs ha hk
+  subst ha
+  simp [filterTableFull, hc, hs, attachCols, hk]
+
 /-- **C09 (safety, distinct names).** In a table with distinct names "the row named X" is unique, so
     the values shown for fit `i` are those of *the* table row named `model_name[i]`. -/
 theorem C09_safety_nodup (table : List (String × V)) (mn : List String)
@@ -85,6 +129,29 @@ theorem C09_liveness (table : List (String × V)) (mn : List String) (addl : Lis
       exact hadd d hd x.1 (by rw [← hg]; exact List.mem_map.mpr ⟨x, hx, rfl⟩))
     exact ⟨t, by unfold filterTableAdd; simp [hft, ht]⟩
 
+/-- **C09 (liveness, with the guards).** With a `MODEL_NAME` column, additional parameter names that
+    are distinct and not table columns, and the hypotheses of `C09_liveness`, `filter_table` as the
+    code runs it returns. -/
+theorem C09_liveness_full (cols : List String) (table : List (String × V)) (mn : List String)
+    (addl : List (String × List (String × K)))
+    (hcol : "MODEL_NAME" ∈ cols) (hkeys : ∀ kd ∈ addl, kd.1 ∉ cols) (hknd : (addl.map (·.1)).Nodup)
+    (hsorted : (table.map (·.1)).Pairwise (fun a b => strLe a b = true))
+    (hnd : (table.map (·.1)).Nodup) (hmn : mn.Nodup) (hsub : ∀ X ∈ mn, X ∈ table.map (·.1))
+    (hadd : ∀ kd ∈ addl, ∀ X ∈ mn, ∃ v, kd.2.lookup (strip X) = some v) :
+    ∃ r, filterTableFull cols table mn addl = .ok r := by
+  obtain ⟨r0, hr0⟩ := C09_liveness table mn ([] : List (List (String × K))) hsorted hnd hmn hsub (by simp)
+  unfold filterTableAdd at hr0
+  cases hs : filterTable table mn with
+  | error e => simp [hs] at hr0
+  | ok sorted =>
+    have hmn' := (filterTable_ok table mn sorted hs).2
+    obtain ⟨r, hr⟩ := attachCols_isSome addl cols (sorted.map (fun r => (r.1, r.2, ([] : List K)))) hkeys hknd
+      (fun kd hkd n hn => hadd kd hkd n (by
+        rw [hmn']
+        simpa [List.map_map, Function.comp_def] using hn))
+    refine ⟨r, ?_⟩
+    simp [filterTableFull, hcol, hs, hr]
+
 /-- **C09 (any order).** Composed with the strip + sort-by-name step that `write_parameters`,
     `write_parameter_ranges`, `extract_parameters` and the parameter plots apply: for ANY two row
     orders of the parameter file (distinct stripped names containing the distinct fit names, names
@@ -118,10 +185,11 @@ theorem C09_any_order (rows rows' : List (String × V)) (mn : List String)
 section ranges
 variable {K : Type} [LinearOrder K]
 
-/-- **C09 (ranges).** For a non-empty column (one value per selected fit, in rank order) the three
-    numbers printed are `min ≤ x ≤ max` for every selected `x`, both attained by a selected fit, and
-    `best` is the value of the rank-1 fit; an empty selection prints no numbers. -/
-theorem C09_ranges (col : List K) :
+/-- **C09 (ranges, finite values).** For a non-empty column (one value per selected fit, in rank
+    order) of ordinary numbers the three numbers printed are `min ≤ x ≤ max` for every selected `x`,
+    both attained by a selected fit, and `best` is the value of the rank-1 fit; an empty selection
+    prints no numbers. -/
+theorem C09_ranges_finite (col : List K) :
     (col = [] → paramRanges col = none) ∧
     (∀ x xs, col = x :: xs → ∃ lo hi, paramRanges col = some (lo, x, hi) ∧
       (∀ y ∈ col, lo ≤ y ∧ y ≤ hi) ∧ lo ∈ col ∧ hi ∈ col) := by
@@ -140,6 +208,26 @@ theorem C09_ranges (col : List K) :
   · rcases b3 with h | h
     · rw [h]; simp
     · exact List.mem_cons_of_mem _ h
+
+/-- **C09 (ranges).** The same for columns of doubles that may hold NaN and ±inf (`np.nanmin`, `[0]`,
+    `np.nanmax`): `best` is the value of the rank-1 fit whatever it is; if every selected value is NaN,
+    `min` and `max` are NaN; otherwise `min` and `max` are non-NaN values of selected fits with
+    `min ≤ x ≤ max` (IEEE order, `-inf < finite < +inf`) for every selected non-NaN `x`; an empty
+    selection prints no numbers. -/
+theorem C09_ranges (col : List (EF K)) :
+    (col = [] → paramRangesEF col = none) ∧
+    (∀ x xs, col = x :: xs → ∃ lo hi, paramRangesEF col = some (lo, x, hi) ∧
+      ((∀ y ∈ col, isNan y = true) → lo = EF.nan ∧ hi = EF.nan) ∧
+      ((∃ y ∈ col, isNan y = false) → lo ∈ col ∧ hi ∈ col ∧ isNan lo = false ∧ isNan hi = false ∧
+        ∀ y ∈ col, isNan y = false → EF.le lo y = true ∧ EF.le y hi = true)) := by
+  refine ⟨fun h => by subst h; rfl, ?_⟩
+  rintro x xs rfl
+  obtain ⟨a1, a2⟩ := nanMin_spec (x :: xs)
+  obtain ⟨b1, b2⟩ := nanMax_spec (x :: xs)
+  refine ⟨nanMin (x :: xs), nanMax (x :: xs), rfl, fun h => ⟨a1 h, b1 h⟩, fun h => ?_⟩
+  obtain ⟨m1, m2, m3⟩ := a2 h
+  obtain ⟨n1, n2, n3⟩ := b2 h
+  exact ⟨m1, n1, m2, n2, fun y hy hn => ⟨m3 y hy hn, n3 y hy hn⟩⟩
 
 end ranges
 
@@ -199,7 +287,20 @@ example : c09ExRows.Perm c09ExRows' ∧ (c09ExRows.map (fun r => strip r.1)).Nod
     (∀ X ∈ c09ExFit, X ∈ c09ExRows.map (fun r => strip r.1)) := by
   refine ⟨by decide, by decide, by decide, by decide⟩
 
--- `C09_ranges` on a concrete column; `C09_counts` on a concrete flag vector
+-- hypotheses of `C09_liveness_full` (hence of `C09_safety_full`); the refusing inputs of `C09_refusals`
+example : "MODEL_NAME" ∈ ["MODEL_NAME", "PAR1"] ∧ (∀ kd ∈ [("extra", c09ExAdd.headD [])], kd.1 ∉ ["MODEL_NAME", "PAR1"]) ∧
+    ([("extra", c09ExAdd.headD [])].map (·.1)).Nodup := by
+  refine ⟨by decide, ?_, by decide⟩
+  intro kd hkd
+  simp only [List.mem_cons, List.not_mem_nil, or_false] at hkd
+  subst hkd; decide
+example : "MODEL_NAME" ∉ ["PAR1", "Q2"] ∧ "PAR1" ∈ ["MODEL_NAME", "PAR1"] := by decide
+
+-- `C09_ranges` on concrete columns (with NaN and both infinities; all NaN); `C09_counts` on a flag vector
+example : paramRangesEF [EF.fin (3 : Rat), EF.nan, EF.ninf, EF.fin 1, EF.pinf] = some (EF.ninf, EF.fin 3, EF.pinf) := by
+  decide
+example : paramRangesEF [EF.nan, EF.fin (3 : Rat), EF.fin 7] = some (EF.fin 3, EF.nan, EF.fin 7) := by decide
+example : paramRangesEF [(EF.nan : EF Rat), EF.nan] = some (EF.nan, EF.nan, EF.nan) := by decide
 example : paramRanges [(3 : Rat), 1, 4] = some (1, 3, 4) := by decide
 example : nData [1, 4, 0, 3, 9, 1, 2] = 3 := by decide
 
